@@ -133,3 +133,27 @@ class C04(E1Prop):
 
     def harnesses(self, tier):
         return [H("prop_C04", "prop_C04.cpp", shards=8)]
+
+
+@prop("C03")
+class C03(E1Prop):
+    pid = "C03"
+    rule = ("cases = (N in 1..5, M in 1..4: all 20 pairs, (coordinate scalar, stored scalar) rotating over float/double so that every combination occurs "
+            "for N=M and N!=M, backend strided<array> or clamp<strided<array>>, extents 2..9 under a cell cap, stored values = arbitrary finite bit "
+            "patterns incl. +-0, subnormals, tiny normals, values near the overflow cap max(R)/2^(N+2), small integers; 6 coordinates per field: cell "
+            "+ fraction with fraction in {0, eps, 2^-k, 1/2, 1-eps/2, denorm_min, random}, emphasis on the last cell; with the clamp beneath also "
+            "coordinates up to 2^61). Oracle: binary128 N-linear interpolant of the stored values converted to the coordinate precision; "
+            "|got-exact| <= (2(2N+2^N+3)u_R+(2^N+1)u_T)*sum|w||v| + u_T|exact| + underflow terms; exact equality at lattice points; range of the 2^N "
+            "corners +- bound. evaluations count coordinates; non-trivial = coordinate not a lattice point (data are never affine); distinct by "
+            "(instantiation, extents, value seed, coordinate bits)")
+    min_eval = 20000
+    assumptions = ("x86-64 SSE arithmetic, round-to-nearest; stored magnitudes capped at max(R)/2^(N+2) so that neither conversion nor the weighted sum overflows",
+                   "without a clamp layer coordinates are kept in [0, extent-1); with it, in [0, 2^61]")
+    level_text = ("Generated-input search against an exact (binary128) evaluation of the interpolation formula with a stated forward error bound, for all 20 "
+                  "(N,M) pairs including N != M and mixed precisions, boundary-directed coordinates and adversarial stored bit patterns.")
+
+    def harnesses(self, tier):
+        return [H("prop_C03_n12", "prop_C03.cpp", shards=8, defines=["VF_GROUP=0"]),
+                H("prop_C03_n3", "prop_C03.cpp", shards=8, defines=["VF_GROUP=1"]),
+                H("prop_C03_n4", "prop_C03.cpp", shards=8, defines=["VF_GROUP=2"]),
+                H("prop_C03_n5", "prop_C03.cpp", shards=8, defines=["VF_GROUP=3"])]
